@@ -31,6 +31,8 @@ let parse_op (t : string) : op =
      | 'N' -> OAddNoc (s, n (a 0))
      | 'U' -> OUpdNoc (s, n (a 0))
      | 'L' -> OAclW (s, n (a 0), a 1 = "1")
+     | 'B' -> OLabel (s, n (a 0), a 1 = "1")
+     | 'I' -> OVid (s, N.add (n_of_int 65520) (n (a 0)), a 1 = "1")
      | 'W' -> ONetAdd (s, n (a 0), (if a 1 = "-" then None else Some (n (a 1))))
      | 'D' -> ONetDel (s, n (a 0))
      | 'K' -> OComplete (s, n (a 0))
@@ -43,11 +45,11 @@ let status_str = function
   | StBusy -> "busy" | StAuth -> "auth" | StFail -> "fail" | StConstraint -> "constraint"
   | StInvCmd -> "invcmd" | StMissingCsr -> "missingcsr" | StConflict -> "conflict"
   | StTableFull -> "tablefull" | StNotFound -> "notfound" | StBounds -> "bounds"
-  | StIdNotFound -> "idnotfound" | StCut j -> "cut" ^ s_of_n j
+  | StIdNotFound -> "idnotfound" | StLabelConflict -> "labelconflict" | StCut j -> "cut" ^ s_of_n j
 
 let fabric_str (f : fabric) =
-  Printf.sprintf "%s:%s:%s:%s:%s" (s_of_n f.f_idx) (s_of_n f.f_root) (s_of_n f.f_nid) (s_of_n f.f_key)
-    (String.concat "+" (List.map s_of_n f.f_acl))
+  Printf.sprintf "%s:%s:%s:%s:%s:%s:%s" (s_of_n f.f_idx) (s_of_n f.f_root) (s_of_n f.f_nid) (s_of_n f.f_key)
+    (String.concat "+" (List.map s_of_n f.f_acl)) (s_of_n f.f_label) (s_of_n f.f_vid)
 
 let fabrics_str (l : fabric list) =
   let l = List.sort (fun a b -> compare (int_of_n a.f_idx) (int_of_n b.f_idx)) l in
@@ -86,10 +88,10 @@ let run_s (f : string list) =
 (* parse the implementation's own observation back into the model's state type *)
 let parse_fabric (s : string) : fabric =
   match split_on ':' s with
-  | [i; r; nid; k; acl] ->
+  | [i; r; nid; k; acl; l; v] ->
     { f_idx = n i; f_root = n r; f_nid = n nid; f_key = n k;
-      f_acl = List.map n (List.filter (fun x -> x <> "") (split_on '+' acl)) }
-  | [i; r; nid; k] -> { f_idx = n i; f_root = n r; f_nid = n nid; f_key = n k; f_acl = [] }
+      f_acl = List.map n (List.filter (fun x -> x <> "") (split_on '+' acl));
+      f_label = n l; f_vid = n v }
   | _ -> failwith ("bad fabric " ^ s)
 
 let between (s : string) (pre : string) : string * string =
@@ -149,7 +151,7 @@ let parse_status (s : string) : status =
   | "busy" -> StBusy | "auth" -> StAuth | "fail" -> StFail | "constraint" -> StConstraint
   | "invcmd" -> StInvCmd | "missingcsr" -> StMissingCsr | "conflict" -> StConflict
   | "tablefull" -> StTableFull | "notfound" -> StNotFound | "bounds" -> StBounds
-  | "idnotfound" -> StIdNotFound
+  | "idnotfound" -> StIdNotFound | "labelconflict" -> StLabelConflict
   | _ ->
     if String.length s > 3 && String.sub s 0 3 = "cut" then StCut (n (String.sub s 3 (String.length s - 3)))
     else StFail  (* any other error answer: a refusal *)
@@ -165,6 +167,7 @@ let verdict_names (v : n list) =
     | 7 -> "accepted-from-other-context"
     | 8 -> "failed-complete-left-unrollbackable"
     | 9 -> "staged-change-orphaned-by-context-switch"
+    | 10 -> "staged-change-stored-by-vid-statement"
     | k -> "clause" ^ string_of_int k) v)
 
 let spec_case (case_line : string) (impl_line : string) =
